@@ -28,7 +28,9 @@ pub fn run(seed: u64, tier: &str, out: &mut Out) {
         let trunc = rng.chance(1, 2);
         let rec = Recorder::new(3, 200, false);
         let pb = ProgressBar::with_draw_target(Some(1), ProgressDrawTarget::term_like(Box::new(rec.clone())));
-        pb.set_style(ProgressStyle::with_template(&format!("[{{msg:{al}{width}{}}}]", if trunc { "!" } else { "" })).unwrap());
+        // a style suffix changes the colours only (they are switched off here), never the columns
+        let sty = *rng.pick(&["", "", ".red", ".cyan.bold", ".green/blue"]);
+        pb.set_style(ProgressStyle::with_template(&format!("[{{msg:{al}{width}{}{sty}}}]", if trunc { "!" } else { "" })).unwrap());
         { rec.st.lock().unwrap().ops.clear(); }
         let (pb2, c2) = (pb.clone(), content.clone());
         let panicked = std::panic::catch_unwind(std::panic::AssertUnwindSafe(move || pb2.set_message(c2))).is_err();
@@ -74,6 +76,8 @@ pub fn run_wide(seed: u64, tier: &str, out: &mut Out) {
         let msg: String = (0..rng.below(30)).map(|_| *rng.pick(&['a', 'b', 'c', 'd', 'e', 'f'])).collect();
         let mut tpl = String::new();
         let mut want: Vec<Option<String>> = Vec::new();   // None = a bar line (only its width is judged)
+        // a quarter of the templates use double-width progress characters and bars of fixed (also odd) width
+        let wide_chars_used = rng.chance(1, 4); let mut bar_fields: Vec<(usize, usize)> = Vec::new();   // (line, expected columns of the whole line)
         for i in 0..nlines {
             if i > 0 { tpl.push('\n'); }
             let left: String = (0..rng.below(4)).map(|_| *rng.pick(&['[', '>', 'x', ' '])).collect::<String>().replace('{', "");
@@ -81,7 +85,9 @@ pub fn run_wide(seed: u64, tier: &str, out: &mut Out) {
             let room = (width as usize).saturating_sub(left.len() + right.len());
             match rng.below(6) {
                 0 => { tpl += &format!("{left}{right}"); want.push(Some(format!("{left}{right}"))); }
-                1 => { tpl += &format!("{left}{{wide_bar}}{right}"); want.push(None); }
+                1 if !wide_chars_used => { tpl += &format!("{left}{{wide_bar}}{right}"); want.push(None); }
+                1 if left.len() + right.len() + 2 > width as usize => { tpl += &format!("{left}{right}"); want.push(Some(format!("{left}{right}"))); }
+                1 => { let room = width as usize - left.len() - right.len() - 1; let bw = *rng.pick(&[1usize, 4, 7, 9]).min(&room); tpl += &format!("{left}{{bar:{bw}}}{right}|"); bar_fields.push((want.len(), left.len() + bw + right.len() + 1)); want.push(None); }
                 k => {
                     let (al, ach) = [("", 'l'), (":<", 'l'), (":^", 'c'), (":>", 'r')][(k as usize - 2) % 4];
                     tpl += &format!("{left}{{wide_msg{al}}}{right}");
@@ -96,7 +102,7 @@ pub fn run_wide(seed: u64, tier: &str, out: &mut Out) {
         let pb = ProgressBar::with_draw_target(Some(10), ProgressDrawTarget::term_like(Box::new(rec.clone())));
         pb.set_position(4);
         let style = match ProgressStyle::with_template(&tpl) { Ok(s) => s, Err(_) => continue };
-        pb.set_style(style);
+        pb.set_style(if wide_chars_used { style.progress_chars("＃＞－") } else { style });
         let (pb2, m2) = (pb.clone(), msg.clone());
         let panicked = std::panic::catch_unwind(std::panic::AssertUnwindSafe(move || { pb2.set_message(m2); pb2.tick(); })).is_err();
         let rows = rec.rows();
@@ -110,6 +116,8 @@ pub fn run_wide(seed: u64, tier: &str, out: &mut Out) {
                 let got = rows.get(i).cloned().unwrap_or_default();
                 match e {
                     Some(e) => if &got != e { verdict = format!("FAIL wide line {i} of tpl={tpl:?} msg={msg:?} width={width}: got {got:?} wanted {e:?}"); break; },
+                    None if bar_fields.iter().any(|(l, _)| *l == i) => { let cols = console::measure_text_width(&got); let wantc = bar_fields.iter().find(|(l, _)| *l == i).unwrap().1;
+                        if cols != wantc { verdict = format!("FAIL bar field of tpl={tpl:?}: line {got:?} has {cols} columns, {wantc} expected"); break; } }
                     None => { let cols = console::measure_text_width(&got); let barlike = got.chars().filter(|c| "█░▉▊▋▌▍▎▏".contains(*c)).count();
                         if cols != width as usize || barlike == 0 { verdict = format!("FAIL wide bar line {i} of tpl={tpl:?} width={width}: got {got:?} ({cols} columns)"); break; } }
                 }
